@@ -17,10 +17,11 @@ without a directory), the header file read — precedes the first `mkdir` / `ope
 the write loop touches the file system, nothing in or after it may raise. -/
 theorem raises_before_first_write : raisesBeforeWrites pre loopBody post = true := by decide
 
-/-- the pipeline stages the property names are may-raise steps of `pre` (the table is not vacuous) -/
+/-- the table is not vacuous: `parser.parse()` is a may-raise step of `pre`, `pre` has dozens of
+may-raise steps and the explicit `raise Error` statements, and the write loop creates directories and opens files -/
 theorem pipeline_steps_present :
-    (["parser_class", "parser.parse", "load_yaml", "custom_file_header_path.read_text"].all
-      (fun w => pre.any (fun s => s.kind == .mayRaise && s.what == w))) = true ∧
+    pre.any (fun s => s.kind == .mayRaise && s.what == "parser.parse") = true ∧
+    (pre.filter (fun s => s.kind == .mayRaise)).length ≥ 20 ∧
     (pre.filter (fun s => s.kind == .raise)).length ≥ 3 ∧
     loopBody.any (fun s => s.kind == .openW) = true ∧ loopBody.any (fun s => s.kind == .mkdir) = true := by
   decide
